@@ -42,6 +42,7 @@ type WorkerReport struct {
 	FPs        []string            `json:"fps"` // fingerprints of non-trivial runs
 	AllFPs     int                 `json:"all_fps"`
 	Others     map[string]int      `json:"others"`
+	KnownHits  map[string]int      `json:"known_hits"`
 	Violations []ReplayFile        `json:"violations"`
 	Samples    []Sample            `json:"samples"`
 	Trouble    string              `json:"trouble,omitempty"`
@@ -97,7 +98,7 @@ func runWorker(t *testing.T, w World) {
 	deadline := time.Unix(envInt("VERIF_W_DEADLINE", time.Now().Add(time.Minute).Unix()), 0)
 	out := os.Getenv("VERIF_W_OUT")
 	wantSamples := envInt("VERIF_W_SAMPLES", 0)
-	rep := WorkerReport{Faults: map[string]int{}, Probes: map[string]int{}, Others: map[string]int{}, Info: map[string]float64{}}
+	rep := WorkerReport{Faults: map[string]int{}, Probes: map[string]int{}, Others: map[string]int{}, Info: map[string]float64{}, KnownHits: map[string]int{}}
 	seenNT := map[uint64]bool{}
 	seenAll := map[uint64]bool{}
 	defer func() {
@@ -126,6 +127,9 @@ func runWorker(t *testing.T, w World) {
 		for _, o := range r.Others {
 			rep.Others[o.Key()]++
 		}
+		for kk, v := range r.KnownHits {
+			rep.KnownHits[kk] += v
+		}
 		for k, v := range r.Info {
 			if f, ok := v.(float64); ok {
 				rep.Info[k] += f
@@ -141,6 +145,11 @@ func runWorker(t *testing.T, w World) {
 				tr = append(append([]string{}, tr[:30]...), fmt.Sprintf("... (%d more events)", len(r.Log)-30))
 			}
 			rep.Samples = append(rep.Samples, Sample{Run: ix, Steps: r.Steps, Trace: tr})
+		}
+		if r.Viol != nil && matchKnown(knownList(), ReplayFile{Property: r.Viol.Prop, Oracle: r.Viol.Oracle, Class: r.Viol.Class}) != nil {
+			// a run that ended in a listed known finding: counted, not minimised, never a VIOLATION
+			rep.KnownHits[r.Viol.Key()]++
+			continue
 		}
 		if r.Viol != nil {
 			before := len(r.Tape)
@@ -176,6 +185,16 @@ type KnownFinding struct {
 	ClassRegex  string `json:"class_regex"`
 	Description string `json:"description"`
 	Commit      string `json:"commit,omitempty"`
+	// Continue: the run may go on past this finding (model and system still agree afterwards)
+	Continue bool `json:"continue,omitempty"`
+}
+
+var knownOnce sync.Once
+var knownCache []KnownFinding
+
+func knownList() []KnownFinding {
+	knownOnce.Do(func() { knownCache = loadKnown() })
+	return knownCache
 }
 
 func loadKnown() []KnownFinding {
@@ -247,7 +266,7 @@ func runOrchestrator(t *testing.T, w World) int {
 
 	var mu sync.Mutex
 	next := 0
-	total := WorkerReport{Faults: map[string]int{}, Probes: map[string]int{}, Others: map[string]int{}, Info: map[string]float64{}}
+	total := WorkerReport{Faults: map[string]int{}, Probes: map[string]int{}, Others: map[string]int{}, Info: map[string]float64{}, KnownHits: map[string]int{}}
 	fps := map[string]bool{}
 	allFPs := 0
 	trouble := ""
@@ -330,6 +349,9 @@ func runOrchestrator(t *testing.T, w World) int {
 				for k, v := range rep.Others {
 					total.Others[k] += v
 				}
+				for k, v := range rep.KnownHits {
+					total.KnownHits[k] += v
+				}
 				for k, v := range rep.Info {
 					total.Info[k] += v
 				}
@@ -395,6 +417,20 @@ func runOrchestrator(t *testing.T, w World) int {
 		exit = 1
 	}
 
+	// known findings the runs went past ("continue" entries), only for the property checked
+	for _, kk := range sortedKeys(total.KnownHits) {
+		parts := strings.SplitN(kk, "/", 3)
+		if len(parts) == 3 && parts[0] == prop {
+			if kf := matchKnown(known, ReplayFile{Property: parts[0], Oracle: parts[1], Class: parts[2]}); kf != nil {
+				key := parts[1] + "/" + parts[2]
+				if !seenKnown[key] {
+					seenKnown[key] = true
+					fmt.Printf("KNOWN-FINDING: property=%s oracle=%s class=%s hits=%d %s\n", parts[0], parts[1], parts[2], total.KnownHits[kk], kf.Description)
+				}
+			}
+		}
+	}
+
 	// evidence
 	real, stub := w.Components(prop)
 	samples := []any{}
@@ -421,6 +457,7 @@ func runOrchestrator(t *testing.T, w World) int {
 		"workers":             nw,
 		"run_index_range":     []int{0, next},
 		"known_findings_seen": len(seenKnown),
+		"known_finding_hits":  total.KnownHits,
 		"other_property_oracles_fired": total.Others,
 		"tree_rev":            rev,
 	}
